@@ -7,12 +7,13 @@ import (
 )
 
 type gEnd struct {
-	uri  string // URI without parameters (what identifies the endpoint)
-	sip  bool
-	user string
-	host string
-	port string
-	tag  string
+	uri     string // URI without parameters (what identifies the endpoint)
+	sip     bool
+	user    string
+	host    string
+	port    string
+	tag     string
+	bareTag bool // an empty tag is written ";tag" instead of ";tag="
 }
 
 // genEndpoint: sip with/without user and port, tel, urn.
@@ -46,6 +47,9 @@ func headerValue(e gEnd, deco int, withTag bool, L int) string {
 	tag := ""
 	if withTag {
 		tag = ";tag=" + e.tag
+		if e.tag == "" && e.bareTag {
+			tag = ";tag" // an empty-looking tag, written without '='
+		}
 	}
 	switch deco {
 	case 1:
@@ -81,13 +85,31 @@ func VC16_Symmetry() {
 	L := rt.Param("L")
 	callID := rt.Str("callid", clsCallID, 1, L)
 	a, b := genEndpoint(L), genEndpoint(L)
+	// ET = 1: empty-looking tags (";tag=" / ";tag") on either side, plain second message
+	emptyTag := rt.Param("ET") > 0
+	if emptyTag {
+		switch rt.Choice("empty-tag", 4) {
+		case 0:
+			a.tag = ""
+		case 1:
+			a.tag, a.bareTag = "", true
+		case 2:
+			b.tag = ""
+		case 3:
+			a.tag, b.tag, b.bareTag = "", "", true
+		}
+	}
 	m1 := dialogMsg(true, a, b, callID, 0, 0, 0, true, true, L)
 	swapped := rt.Bool("swapped")
 	f, t := a, b
 	if swapped {
 		f, t = b, a
 	}
-	m2 := dialogMsg(rt.Bool("request2"), f, t, callID, rt.Choice("decoF", 3), rt.Choice("decoT", 3), rt.Choice("spelling", 4), true, true, L)
+	decoF, decoT, sp := 0, 0, 0
+	if !emptyTag {
+		decoF, decoT, sp = rt.Choice("decoF", 3), rt.Choice("decoT", 3), rt.Choice("spelling", 4)
+	}
+	m2 := dialogMsg(rt.Bool("request2"), f, t, callID, decoF, decoT, sp, true, true, L)
 	p1, err1 := parseText(m1)
 	p2, err2 := parseText(m2)
 	rt.Assert(err1 == nil && err2 == nil, "both messages decode")
@@ -96,6 +118,14 @@ func VC16_Symmetry() {
 	}
 	d1, e1 := p1.GetDialog()
 	d2, e2 := p2.GetDialog()
+	if emptyTag {
+		// whether an empty tag counts as a tag is the implementation's choice — but not per direction
+		rt.Assert((e1 == nil) == (e2 == nil), "empty-looking tag: belonging to a dialog does not depend on which side is From")
+		if e1 != nil || e2 != nil {
+			rt.Reach("end")
+			return
+		}
+	}
 	rt.Assert(e1 == nil && e2 == nil, "both messages belong to a dialog")
 	if e1 != nil || e2 != nil {
 		return
